@@ -80,7 +80,7 @@ def call_ufunc(g, da, mo):
                                  boundary="fill", fill_value=3.0, dask="allowed" if mo else "parallelized", map_overlap=mo)
 
 
-def check_lazy(rec, sub, case, build, eager_fn, expect_refuse, chunked, threads=False):
+def check_lazy(rec, sub, case, build, eager_fn, expect_refuse, chunked, threads=False, second=None):
     """build(): the lazy call; eager_fn(): the in-memory call"""
     import dask
 
@@ -131,6 +131,25 @@ def check_lazy(rec, sub, case, build, eager_fn, expect_refuse, chunked, threads=
         rec.violation(sub, "coords-differ-from-eager", case, sorted(map(str, ee.coords)), sorted(map(str, v.coords)))
         return None
     rec.outcomes["lazy-equal"] += 1
+    if second is not None:
+        # two results of the same operation on different data, computed in one graph and combined
+        try:
+            with warnings.catch_warnings():
+                warnings.simplefilter("ignore")
+                r2 = second[0]()
+                e2 = second[1]()
+                v1, v2 = dask.compute(r, r2, scheduler="synchronous")
+                prod = (r * r2).compute(scheduler="synchronous")
+            rec.counters["joint_computes"] += 1
+            if not (np.array_equal(v1.values, ee.values, equal_nan=True) and np.array_equal(v2.values, e2.values, equal_nan=True)):
+                rec.violation(sub, "joint-compute-differs-from-eager", case, [ee.values, e2.values], [v1.values, v2.values])
+                return None
+            if not np.array_equal(prod.values, (ee * e2).values, equal_nan=True):
+                rec.violation(sub, "combined-expression-differs-from-eager", case, (ee * e2).values, prod.values)
+                return None
+        except Exception as e:
+            rec.violation(sub, "joint-compute-raise:" + exc_sig(e), case, "values", f"{type(e).__name__}: {e}"[:200])
+            return None
     if threads:
         vt = r.compute(scheduler="threads")
         rec.counters["threaded_runs"] += 1
@@ -152,6 +171,8 @@ def part_A(rec, tier, seed, fr, to, only=None):
             for cy in compositions(2):
                 chunks = {"t": ct, "yc": cy, POSD[fr]: cx}
                 ops = [(op, "X", dict(to=to)) for op in OPS1]
+                # a second axis that is never inner/outer: its chunking must not matter for the refusal
+                ops += [("interp", ["Y", "X"], dict(to={"Y": "left", "X": to})), ("diff", ["X", "Y"], dict(to={"Y": "left", "X": to}))]
                 if (fr, to) == ("center", "left"):
                     ops += [("integrate", "X", {}), ("average", "X", {}), ("integrate", ["X", "Y"], {}), ("diff", "Y", dict(to="left")),
                             ("cumsum", ["Y", "X"], dict(to="left")), ("interp", ["X", "Y"], dict(to="left", boundary="fill", fill_value=2.0)),
@@ -178,8 +199,12 @@ def part_A(rec, tier, seed, fr, to, only=None):
                             eager = lambda: call(gg, op, e_in, axis, kw)
                             refuse = chunked_axis and io and op in REFUSABLE
                         anych = len(cx) > 1 or len(ct) > 1 or len(cy) > 1
+                        second = None
+                        if op != "ufunc" and idx % 3 == 0:
+                            e2_in = (e_in * 3 + 1).rename("q2")
+                            second = (lambda: call(gg, op, e2_in.chunk(chunks), axis, kw), lambda: call(gg, op, e2_in, axis, kw))
                         check_lazy(rec, "simple-grid", case, build, eager, refuse, anych,
-                                   threads=(tier == "thorough" or idx % 5 == 0))
+                                   threads=(tier == "thorough" or idx % 5 == 0), second=second)
 
 
 # ---------------------------------------------------------------------- (B) faces
